@@ -22,6 +22,7 @@ fn lane_fields(prefix: &str, l: &Lane) -> Vec<(String, String)> {
         crate::arena::Place::EndFlush => (0, 0),
         crate::arena::Place::StartFlush => (1, 0),
         crate::arena::Place::Mid(o) => (2, o),
+        crate::arena::Place::Hostile(o) => (3, o),
     };
     vec![
         (format!("{prefix}entry"), (l.entry as u8).to_string()),
@@ -77,7 +78,8 @@ fn lane_from(text: &str, prefix: &str) -> Option<Lane> {
         place: match g("place")? {
             0 => crate::arena::Place::EndFlush,
             1 => crate::arena::Place::StartFlush,
-            _ => crate::arena::Place::Mid(g("place_off")? as usize),
+            2 => crate::arena::Place::Mid(g("place_off")? as usize),
+            _ => crate::arena::Place::Hostile(g("place_off")? as usize),
         },
     })
 }
